@@ -60,3 +60,9 @@ func held(mu any) bool { return false }
 //@   ensures#abandoned-unordered-fragments-purged{C07,C11} len(s.reassemblyQueue.unorderedChunks) > 0 ==>
 //@      specSerGT32(s.reassemblyQueue.unorderedChunks[0].tsn, newCumulativeTSN)
 //@   ensures#ordered-data-untouched{C07} sameSlice(s.reassemblyQueue.ordered, old(s.reassemblyQueue.ordered)) && s.reassemblyQueue.nextSSN == old(s.reassemblyQueue.nextSSN)
+
+// ---- C18: a message taken out of the reassembly queue is handed to the caller ----
+
+//@ func Stream.ReadSCTP
+//@   at return assert#a-dequeued-message-is-returned{C18} err == nil ==> result2 == nil && result0 == n && result1 == ppi
+//@   at return assert#short-buffer-is-reported{C18} err != nil && result2 == nil ==> false
